@@ -31,7 +31,8 @@ CONSTANTS Caps,        \* channel capacities to explore
           Depth,       \* driver steps per behaviour
           MaxPending,  \* bound on simultaneously blocked operations
           Bursts,      \* BOOLEAN: emit burst steps
-          Loops        \* BOOLEAN: emit the looping methods (Consume / Iterator)
+          Loops,       \* BOOLEAN: emit the looping methods (Consume / Iterator)
+          Dists        \* BOOLEAN: emit the filtered distributor operations over the channel
 
 VARIABLES s, hist
 vars == <<s, hist>>
@@ -42,13 +43,15 @@ ValOf(id) == "a" \o id
 
 Act(op, id, k, meth, nb, pre, target) ==
   [op |-> op, id |-> id, k |-> k, meth |-> meth, nb |-> nb, val |-> IF k = "send" THEN ValOf(id) ELSE "",
-   pre |-> pre, target |-> target]
+   pre |-> pre, target |-> target, bad |-> FALSE]
+\* the same send with an item the distributor filters reject (named "!..." so that the harness' filter knows)
+Bad(a) == [a EXCEPT !.val = "!" \o a.val, !.bad = TRUE]
 
 \* items a ChanSend.Consume call pushes
 Items(id) == <<ValOf(id) \o "x", ValOf(id) \o "y">>
 
 ApplyAct(x, a) ==
-  CASE a.op = "start"  -> StartSucc(x, a.id, a.k, a.meth, a.nb, a.val, a.pre, IF a.meth = "sconsume" THEN Items(a.id) ELSE <<>>)
+  CASE a.op = "start"  -> StartSucc(x, a.id, a.k, a.meth, a.nb, a.val, a.pre, IF a.meth = "sconsume" THEN Items(a.id) ELSE <<>>, a.bad)
     [] a.op = "close"  -> [CloseSucc(x) EXCEPT !.out = (a.id :> "done") @@ @]
     [] a.op = "cancel" -> CancelSucc(x, a.target)
     [] a.op = "iclose" -> [ICloseSucc(x) EXCEPT !.out = (a.id :> "nil") @@ @]
@@ -62,6 +65,11 @@ Starts(id) ==
   \cup {Act("start", id, "recv", m, nb, pre, "") : m \in RecvMeths \ {"ok"}, nb \in BOOLEAN, pre \in BOOLEAN}
   \* a blocking Ok() on a nil channel can never return (no context arm): not started
   \cup {Act("start", id, "recv", "ok", nb, FALSE, "") : nb \in (IF s.c.nil THEN {TRUE} ELSE BOOLEAN)}
+  \cup (IF Dists
+          THEN LET ds == {Act("start", id, "send", m, nb, pre, "") : m \in {"dsendf", "write"}, nb \in BOOLEAN, pre \in BOOLEAN}
+               IN {Bad(a) : a \in ds} \cup {a \in ds : a.meth = "dsendf"}
+                  \cup {Act("start", id, "recv", "drecvf", nb, pre, "") : nb \in BOOLEAN, pre \in BOOLEAN}
+          ELSE {})
   \cup (IF Loops
           THEN {Act("start", id, "send", "sconsume", nb, pre, "") : nb \in BOOLEAN, pre \in BOOLEAN}
                \cup {Act("start", id, "recv", "rconsume", FALSE, FALSE, "")}
